@@ -541,7 +541,9 @@ func (s *State) diffIOSACLs(al, bl []*cmd, diff []edit.Range) {
 				lowOK = lowOK && action0 == getIOSAction(b)
 				p := s.printNetspocCmd(b)
 				p = stripLogRX.ReplaceAllLiteralString(p, "")
-				if cmdPos, found := delMap[p]; found {
+				// Line may have been moved already, if ACL from Netspoc
+				// has duplicate lines.
+				if cmdPos, found := delMap[p]; found && cmdPos.cmd != nil {
 					moveACL(cmdPos, b, r.LowA, i, lowOK, highOK[i])
 				} else {
 					addACL(b, r.LowA, i)
